@@ -8,6 +8,7 @@ pub mod crash;
 pub mod hist;
 pub mod sched;
 pub mod selftest;
+pub mod live;
 
 pub fn run(name : &str, ctx : &Ctx, out : &mut Out) -> bool
 {
@@ -29,8 +30,10 @@ pub fn run(name : &str, ctx : &Ctx, out : &mut Out) -> bool
         "c17_contradiction" => hist::contradiction(ctx, out),
         "c10_clean_build" => hist::clean_build(ctx, out),
         "swap" => hist::swap(ctx, out),
+        "mixed" => hist::mixed(ctx, out),
         "sched" => sched::schedules(ctx, out),
         "crash" => crash::crashes(ctx, out),
+        "c19_live" => live::live_server(ctx, out),
         "crash_coarse" => crash::crashes_coarse(ctx, out),
         _ => return false,
     }
